@@ -170,8 +170,10 @@ def run(ctx):
         junk = bytes(rng.randrange(256) for _ in range(rng.choice([0, 1, 5, 40, 300])))
         cases.append(("garbage", junk, None, b"", None, False, False))
     cases.append(("empty", b"", None, b"", None, False, False))
-    for _ in range(3):
-        cases.append(("spawn-fail", b"", None, b"", None, True, False))
+    import errno
+    for code in (errno.EAGAIN, errno.ENOMEM, errno.EMFILE, errno.ENFILE, errno.ENOENT, errno.EACCES, errno.EPERM,
+                 errno.ENOEXEC, errno.E2BIG):
+        cases.append(("spawn-fail", b"", None, b"", None, code, False))
 
     # 5. reports of a child whose stderr is not UTF-8 (names arrive as latin-1 / arbitrary bytes)
     raw_reports = {}
@@ -200,7 +202,7 @@ def run(ctx):
     child_cases = [c[2] for c in cases if c[2] is not None and c[0] in ("full", "noise")]
     child_q = [{"op": "child_report", "ran": r[0], "fails": [[ord(ch) for ch in n] for n in r[1]],
                 "errs": [[ord(ch) for ch in n] for n in r[2]]} for r in child_cases]
-    queries = [{"op": "channel_parse", "stderr": list(s), "spawn_failed": c[5]} for s, c in zip(streams, cases)]
+    queries = [{"op": "channel_parse", "stderr": list(s), "spawn_failed": bool(c[5])} for s, c in zip(streams, cases)]
     answers = ctx.driver.batch(queries + child_q)
     parse_ans, child_ans = answers[:len(queries)], answers[len(queries):]
 
@@ -297,7 +299,7 @@ def replay(ctx, obj):
     if "stderr" not in case or case.get("stderr_len", 0) > 4000:
         return run(ctx)
     stream = bytes(case["stderr"])
-    ans = ctx.driver.batch([{"op": "channel_parse", "stderr": list(stream), "spawn_failed": case["spawn_error"]}])[0]
+    ans = ctx.driver.batch([{"op": "channel_parse", "stderr": list(stream), "spawn_failed": bool(case["spawn_error"])}])[0]
     real = real_parent(stream, spawn_error=case["spawn_error"])
     ctx.count(stream, sample={"stderr": repr(stream[:200]), "real": real, "model": ans})
     if real["kind"] in ("crash", "hang"):
